@@ -85,6 +85,14 @@ def replay(case) -> dict:
     tomo = np.zeros(TSHAPE, np.float32)
     plant(tomo, tmpls[cfg["j"]], pstar, Rstar)
     form0 = int(case.get("_form", 0))
+    # the particle next to the low faces of the tomogram: the box is inside, the (larger) window read for the interpolation is not
+    face = (form0 // 24) % 2 == 1 and kind in ("single", "multi", "stack")
+    desc["near_low_faces"] = face
+    if face:
+        cut = np.maximum(np.floor(np.minimum(pstar, p_in / scale)).astype(int) - 5, 0)
+        tomo = np.ascontiguousarray(tomo[cut[0]:, cut[1]:, cut[2]:])
+        p_in = p_in - cut * scale
+        want_p = want_p - cut * scale
     if (form0 // 4) % 3 == 1:
         tomo = tomo.astype(np.float64)
     elif (form0 // 4) % 3 == 2 and cfg["kind"] in ("single", "multi", "stack", "group"):
@@ -199,7 +207,7 @@ def run(rep: engine.Report, tier: str, seed: int):
     search = [json.loads(s) for s in search]
     for i, c in enumerate(cases):
         c["_search"] = search
-        c["_form"] = (i * 7 + seed) % 24
+        c["_form"] = (i * 7 + seed) % 48
     budget = 1500 if tier == "quick" else 12000
     sel = engine.stratified_sample(cases, _stratum, budget, seed)
     rep.exhaustive = len(sel) == len(cases)
